@@ -36,6 +36,23 @@ struct Buf {
 #endif
 };
 
+// what the node held before the integer under test was stored into it (a setter must not inherit anything from the old value)
+template <class D>
+static void set_prior(D& d, int prior) {
+  switch (prior) {
+    case 1: d.SetInt64(-5); break;
+    case 2: d.SetInt64(5); break;
+    case 3: d.SetUint64(9223372036854775809ull); break;
+    case 4: d.SetDouble(-2.5); break;
+    case 5: d.SetString("previous value", 14, d.GetAllocator()); break;
+    case 6: d.SetNull(); break;
+    case 7: d.SetArray(); break;
+    case 8: d.SetInt64(INT64_MIN); break;
+    default: break;
+  }
+}
+static int g_prior = 0;
+
 static std::string check_u64(uint64_t v, bool through_doc) {
   char want[32];
   int wn = snprintf(want, sizeof want, "%llu", (unsigned long long)v);
@@ -46,7 +63,9 @@ static std::string check_u64(uint64_t v, bool through_doc) {
     return "U64toa(" + std::string(want) + ") produced " + printable(std::string(b.p(), (size_t)std::max<long>(0, std::min<long>(e - b.p(), 32))));
   if (through_doc) {
     Document d;
+    set_prior(d, g_prior);
     d.SetUint64(v);
+    if (!d.IsUint64() || d.GetUint64() != v) return "SetUint64(" + std::string(want) + ") on a node that held another value: accessors disagree";
     std::string s = d.Dump();
     if (s != want) return "Serialize(uint64 " + std::string(want) + ") produced " + printable(s);
     Document p;
@@ -65,7 +84,9 @@ static std::string check_i64(int64_t v, bool through_doc) {
     return "I64toa(" + std::string(want) + ") produced " + printable(std::string(b.p(), (size_t)std::max<long>(0, std::min<long>(e - b.p(), 32))));
   if (through_doc) {
     Document d;
+    set_prior(d, g_prior);
     d.SetInt64(v);
+    if (!d.IsInt64() || d.GetInt64() != v) return "SetInt64(" + std::string(want) + ") on a node that held another value: accessors disagree";
     std::string s = d.Dump();
     if (s != want) return "Serialize(int64 " + std::string(want) + ") produced " + printable(s);
     Document p;
@@ -287,6 +308,9 @@ static void property(Src& s, Case& c) {
   }
   bool sign = s.coin(1, 2);
   bool through = s.coin(1, 4);
+  g_prior = through && s.coin(1, 2) ? (int)s.pick(1, 8) : 0;
+  c.note("prior", std::to_string(g_prior));
+  if (g_prior) c.cls("node-held-another-value-before");
   c.note("v", std::to_string(v));
   c.note("signed", sign ? "1" : "0");
   c.cls("class:" + kind);
@@ -342,7 +366,14 @@ static void direct(const Fields& f, Case& c) {
   const std::string* v = field(f, "v");
   if (!v) c.fail("replay has no v field");
   uint64_t x = strtoull(v->c_str(), nullptr, 10);
-  std::string m = check_u64(x, true);
+  std::string m;
+  for (int pr = 0; pr <= 8 && m.empty(); pr++) {
+    g_prior = pr;
+    m = check_u64(x, true);
+    if (m.empty()) m = check_i64((int64_t)x, true);
+  }
+  g_prior = 0;
+  if (m.empty()) m = check_u64(x, true);
   if (m.empty()) m = check_i64((int64_t)x, true);
   if (!m.empty()) c.fail(m);
 }
